@@ -63,6 +63,13 @@ impl Model {
             acts.push((format!("005 {}", TB), Act::Insert(format!("005 {}", TB), 5, TB)));
             acts.push(("  5".into(), Act::Bare(5)));
         }
+        // lines of exactly 1023 and 1024 bytes (the limit) are stored like any other
+        for total in [1023usize, 1024] {
+            let n = universe[0];
+            let digits = n.to_string().len();
+            let text: &'static str = Box::leak(format!("PRINT \"{}\"", "x".repeat(total - digits - 1 - 8)).into_boxed_str());
+            acts.push((format!("{} PRINT \"x..x\" ({} bytes)", n, total), Act::Insert(format!("{} {}", n, text), n, text)));
+        }
         // an absent number outside the universe
         acts.push(("3".into(), Act::Bare(3)));
         for bad in ["65530", "65535", "65536", "99999"] {
@@ -229,6 +236,9 @@ impl SpaceModel for Model {
             let l = s.rt.get_listing();
             let mut probe: Vec<usize> = self.universe.iter().map(|n| *n as usize).collect();
             probe.extend([2usize, 65530, 70000]);
+            // numbers that wrap onto a stored line when narrowed to 16 bits
+            let wrapped: Vec<usize> = self.universe.iter().map(|n| *n as usize + 65536).collect();
+            probe.extend(wrapped);
             for n in probe {
                 let got = l.line(n).map(|(t, _)| t);
                 let exp = if n <= 65529 { map.get(&(n as u16)).map(|t| format!("{} {}", n, t)) } else { None };
